@@ -42,6 +42,13 @@ macro_rules! generic_bus {
             pub fn release(self) -> ($($PX, )*) {
                 self.pins
             }
+
+            /// Verification hook (only with `--cfg mipidsi_verif`): the cached last bus value.
+            #[cfg(mipidsi_verif)]
+            #[doc(hidden)]
+            pub fn verif_last(&self) -> Option<$Word> {
+                self.last
+            }
         }
 
         impl<$($PX, )* E> OutputBus
@@ -184,6 +191,13 @@ where
     /// the bus and GPIO pins used by it
     pub fn release(self) -> (BUS, DC, WR) {
         (self.bus, self.dc, self.wr)
+    }
+
+    /// Verification hook (only with `--cfg mipidsi_verif`): read-only access to the data bus.
+    #[cfg(mipidsi_verif)]
+    #[doc(hidden)]
+    pub fn verif_bus(&self) -> &BUS {
+        &self.bus
     }
 
     fn send_word(
